@@ -174,6 +174,7 @@ def _model_check(ctx):
                      dict(max_env=1, max_crash=1 if ctx.quick else 2, max_runs=2, max_prunes=1,
                           max_reads=1, spare=[7] if scn == 'trace' else [6])))
     need = ['Upload', 'Delete', 'Crash', 'PruneDelete', 'AddEvent', 'Tick', 'EndRun', 'Seed']
+    need_more = {('trace', 'pop'): ['StaleFinish'], ('trace', 'conc'): ['StaleFinish', 'Unschedule']}
 
     def one(job):
         scn, tag, ts_of, sched_of, kw = job
@@ -192,7 +193,8 @@ def _model_check(ctx):
         results = list(ex.map(one, runs))
     for (scn, tag, _ts, _sc, _kw), res in zip(runs, results):
         ctx.add_mc('Archive/%s/%s' % (scn, tag) + (' (extension: readers)' if tag == 'read' else ''),
-                   res, need_actions=need + (['Read'] if tag == 'read' else []))
+                   res, need_actions=need + (['Read'] if tag == 'read' else [])
+                   + need_more.get((scn, tag), []))
         if res['violated']:
             raise tlc.MachineryError(
                 'Archive.tla (%s/%s) violates %s: the specification is expected to satisfy C18; '
@@ -203,8 +205,10 @@ def _model_check(ctx):
 
 # ---------------------------------------------------------------------------
 # TLC behaviours -> histories for the driver
-def _setup_from_seeds(scn, sched, seeds, now0=NOW0, real=None):
-    """sched: {model inst: bool}; seeds: {id: ts (model units)} -> setup steps."""
+def _setup_from_seeds(scn, sched, seeds, now0=NOW0, real=None, stale=()):
+    """sched: {model inst: bool}; seeds: {id: ts (model units)} -> setup steps.
+    stale: scheduled model instances that also get a /finished record (stale
+    terminal event of a server that lost the placement) right at the start."""
     real = real or scn['real']
     setup = []
     mode = scn['mode']
@@ -212,6 +216,8 @@ def _setup_from_seeds(scn, sched, seeds, now0=NOW0, real=None):
         for m in scn['inst_seq']:
             if sched.get(m):
                 setup.append(['Sched', real[m]])
+                if m in stale:
+                    setup.append(['Stale', real[m], 'killed'])
     for ident, ts in sorted(seeds.items(), key=lambda x: (x[1], x[0])):
         setup.append(['SetNow', ts * UNIT])
         obj = real[scn['ev_inst'][ident]]
@@ -235,6 +241,8 @@ def _env_step(scn, label, args, real=None):
         return ['Sched', real[args[0]]]
     if label == 'Unschedule':
         return ['Event', 'trace', real[args[0]], 'finished']
+    if label == 'StaleFinish':
+        return ['Stale', real[args[0]], 'aborted']
     if label == 'AddEvent':
         obj = real[scn['ev_inst'][int(args[0])]]
         if mode == 'trace':
@@ -245,7 +253,7 @@ def _env_step(scn, label, args, real=None):
     raise tlc.MachineryError('unknown environment label %s' % label)
 
 
-def labels_to_history(scn_name, labels, batch=BATCH, expiry=EXPIRY, real=None):
+def labels_to_history(scn_name, labels, batch=BATCH, expiry=EXPIRY, real=None, stale=()):
     """One TLC behaviour of Archive.tla -> dict(setup, steps) for the driver."""
     scn = SCN[scn_name]
     real = real or scn['real']
@@ -314,7 +322,7 @@ def labels_to_history(scn_name, labels, batch=BATCH, expiry=EXPIRY, real=None):
     if steps and steps[-1][0] == 'Archive' and steps[-1][4]:
         steps.append(['Archive', mode, batch, expiry * UNIT // 1000, 0, []])
     steps.append(['Prune', mode, 1, 0])
-    return dict(setup=_setup_from_seeds(scn, sched, seeds, real=real), steps=steps)
+    return dict(setup=_setup_from_seeds(scn, sched, seeds, real=real, stale=stale), steps=steps)
 
 
 def _generate_tlc(ctx):
@@ -334,7 +342,9 @@ def _generate_tlc(ctx):
                                        extra_files=files, timeout=120 if ctx.quick else 900)
         ctx.cmds.append(cmd)
         for b in behaviours:
-            out.append((scn, 'tlc', labels_to_history(scn, b, real=real_map(scn, rng))))
+            # half of the behaviours start with the scheduled instances also under /finished
+            stale = set(SCN[scn]['inst_seq']) if rng.random() < 0.5 else ()
+            out.append((scn, 'tlc', labels_to_history(scn, b, real=real_map(scn, rng), stale=stale)))
     return out
 
 
@@ -364,6 +374,9 @@ def rand_history(rng):
         if rng.random() < 0.65:      # the instance finished at some point
             raw.append((min(now, max(1, boundary + rng.choice(_OFFSETS))), 2,
                         ['Event', 'trace', inst, rng.choice(['finished', 'killed', 'aborted'])]))
+        elif rng.random() < 0.6:     # still scheduled, but a server that lost the placement
+            raw.append((min(now, max(1, boundary + rng.choice(_OFFSETS))), 2,      # said it was over
+                        ['Stale', inst, rng.choice(['finished', 'killed', 'aborted'])]))
     setup = []
     for ts, _prio, step in sorted(raw, key=lambda x: (x[0], x[1])):
         setup.append(['SetNow', ts])
@@ -378,6 +391,8 @@ def rand_history(rng):
             return ['Event', 'trace', rng.choice(insts), 'configured', 'x%d' % rng.randrange(1000)]
         if r < 0.85:
             return ['Event', 'server', rng.choice(servers), 'server_state', 'x%d' % rng.randrange(1000)]
+        if r < 0.92:
+            return ['Stale', rng.choice(insts), 'killed']
         return ['Event', 'trace', rng.choice(insts), 'finished']
 
     def inject(kind):
@@ -415,7 +430,8 @@ def exhaustive_populations(rng, limit):
     for ts in combos[:limit]:
         for sa, sb in ((False, False), (True, False), (False, True)):
             setup = _setup_from_seeds(scn, {'a': sa, 'b': sb}, dict(enumerate(ts, 1)),
-                                      real=real_map('trace', rng))
+                                      real=real_map('trace', rng),
+                                      stale=('a', 'b') if rng.random() < 0.5 else ())
             out.append(dict(setup=setup, steps=[['Archive', 'trace', BATCH, EXPIRY, 0, []],
                                                ['Prune', 'trace', 1, 0]]))
     return out
